@@ -8,7 +8,8 @@
 // provenance files and a grid of validly signed messages that list something
 // other than the archive are run through Signatory.Verify,
 // downloader.VerifyChart, ChartDownloader.DownloadTo (VerifyAlways, in-memory
-// getter), ChartPathOptions.LocateChart (--verify) and action.Verify.Run, and
+// getter), ChartPathOptions.LocateChart (--verify), action.Verify.Run and
+// action.Pull.Run (Verify x VerifyLater x Untar, loopback HTTP server), and
 // compared with a semantic reference (oracle.go).
 package c17
 
@@ -45,11 +46,13 @@ func init() {
 		ID:    prop,
 		Level: "exploration",
 		Rule: "2 charts x 2 generated keys (RSA-2048, ECDSA-P256; fixed-seed generation) signed through Signatory.ClearSign. Per (chart,key) pair, structured families: " +
-			"unmodified (ClearSign output and time-pinned re-signature), missing provenance, 5 renamed/moved archives, every other pair's provenance (also with the archive renamed to match), " +
+			"unmodified (ClearSign output and time-pinned re-signature), missing provenance, 5 renamed/moved archives (by copy) and 5 renames through symbolic links " +
+			"(archive linked; archive and provenance linked; to another name or to the own name in another directory), 12 tamper-class representatives, every other pair's provenance (also with the archive renamed to match), " +
 			"text/armor splices, keyring-file sequences in one process (one path rewritten in place ring1 -> ring2 -> ring1 for all 12 ordered pairs of keyring contents, and one content under " +
 			"two paths, each for the unmodified pair and for a pair with one archive bit flipped, judged after every step), a grid of messages validly signed by the trusted key (8 name keys x 12 digest values x 3 second entries) and 7 repeated-entry messages, " +
-			"under the keyrings {signer, other+signer, other only, empty}, through 5 entry points. Positional families: every single-bit flip and every truncation length of the " +
-			"provenance file and of the archive (quick: keyring other+signer, Signatory.Verify/VerifyChart/DownloadTo; thorough: all 4 keyrings x 5 entry points, plus every " +
+			"under the keyrings {signer, other+signer, other only, empty}, through 9 entry points: Signatory.Verify, VerifyChart, DownloadTo(VerifyAlways), LocateChart(--verify), " +
+			"action.Verify and action.Pull with Verify set x {VerifyLater} x {Untar} over a loopback HTTP server (the 4 pulls without Verify are executed on 4 classes, unjudged). Positional families: every single-bit flip and every truncation length of the " +
+			"provenance file and of the archive (quick: keyring other+signer, Signatory.Verify/VerifyChart/DownloadTo; thorough: all 4 keyrings x the 5 non-Pull entry points, plus every " +
 			"byte of the provenance replaced by each of the 255 other values and every single byte deleted). distinct = (family, pair, mutation position or grid cell, keyring); " +
 			"every case differs from the signed original in at least one byte, name or key, except the families baseline and real-clearsign",
 		Run:    run,
@@ -60,6 +63,9 @@ func init() {
 				"because ClearSign stamps time.Now(); ClearSign's own output is verified unmodified under all keyrings (family real-clearsign)",
 			"archives written by chartutil.Save are re-packed with a fixed tar mtime (Save stamps time.Now()) before signing so that all shards enumerate identical bytes",
 			"messages that list the archive name more than once have no defined meaning in the statement: only 'no listed value matches => reject' is required of them",
+			"action.Pull only accepts the built-in getters, so the Pull entry points fetch from an HTTP server on 127.0.0.1 owned by the worker; with Verify set, " +
+				"a failed pull must return an error and leave nothing in the untar directory; pulls without Verify are outside the statement",
+			"a symbolic link offered under its own file name whose provenance exists only next to the link target is not judged (not generated)",
 			"a panic inside Helm is counted (outcome panic) and is a C17 violation only when the reference accepts the case",
 		},
 		RequiredFloors: []string{"real-clearsign-roundtrip", "accept-baseline", "accept-noop-mutant", "reject-no-block", "reject-bad-signature",
@@ -719,7 +725,7 @@ func run(c *core.Ctx) {
 	x := &explorer{c: c, f: f, e: e}
 	c.Bound("charts", "2 (hx-a-0.1.0: Chart.yaml only; hx-b-1.2.3: Chart.yaml+values.yaml+1 template)")
 	c.Bound("keys", "2 (k0 RSA-2048 with RSA subkey via openpgp.NewEntity; k1 ECDSA P-256), fixed-seed generation")
-	c.Bound("entry_points", strings.Join(entries, ","))
+	c.Bound("entry_points", strings.Join(entries, " "))
 	for i, p := range f.pairs {
 		c.Bound(fmt.Sprintf("pair%d", i), fmt.Sprintf("%s/k%d archive=%dB prov=%dB", p.Base, p.Key, len(p.Archive), len(p.Prov)))
 	}
